@@ -121,3 +121,11 @@ package crypto
 
 // The sentinel errors are initialised once (package initialisation) and never reassigned.
 //@ axiom sentinel_errors_nonnil ErrCombineMultiple != nil && ErrCombineOverlap != nil
+
+// ---- crypto.Base: sigvalid(b, s, id, c) means that signature s carries a valid signature
+// of the replica configured under id (in b's configuration) over the byte string c.
+//@ pure func sigvalid(b Base, s hotstuff.QuorumSignature, id hotstuff.ID, c int) bool
+//@ interface Base.Verify
+//@   ensures [sound] result == nil ==> signature != nil && hotstuff.setlen(hotstuff.parts(signature)) >= 1 && (forall id hotstuff.ID :: hotstuff.setmem(hotstuff.parts(signature), id) ==> sigvalid(self, signature, id, content(message)))
+//@ interface Base.BatchVerify
+//@   ensures [sound] result == nil ==> signature != nil && hotstuff.setlen(hotstuff.parts(signature)) >= 1 && (forall id hotstuff.ID :: hotstuff.setmem(hotstuff.parts(signature), id) ==> has(batch, id) && sigvalid(self, signature, id, content(batch[id])))
